@@ -33,7 +33,7 @@ ASSUMPTIONS = ['the planted truth comes from the harness\'s own exact piecewise-
                'degenerate plantings are discarded by the reference, not failed']
 PROBES = ['planted_av_at_range_end', 'planted_distance_at_range_end', 'planted_distance_interior', 'aperture_clamped', 'flag4_point', 'limit_band',
           'garbage_band', 'filter_desc_order', 'filter_partial_overlap', 'convolve_crash_rerun', 'fit_crash_restart', 'degenerate_discarded',
-          'singular_discarded', 'apdep', 'free_scale', 'params_row_checked', 'prelude_epoch', 'object_route', 'intruder_fit']
+          'singular_discarded', 'apdep', 'free_scale', 'params_row_checked', 'prelude_epoch', 'object_route', 'intruder_fit', 'other_model_with_zero_band']
 
 
 def budgets(tier):
@@ -43,11 +43,13 @@ def budgets(tier):
 
 
 def generate(rng, tier, idx):
-    w = gen_world(rng, n_models=(2, 6), n_wav=(12, 40), n_filters=(3, 5), n_ap=(2, 5), filt_desc=True, n_par=(1, 3))
+    w = gen_world(rng, n_models=(2, 6), n_wav=(12, 40), n_filters=(3, 5), n_ap=(2, 5), filt_desc=True, n_par=(1, 3), allow_zero_band=True)
+    if w['format'] == 1 and rng.random() < 0.2:
+        w['mixed'] = rng.randrange(w['n_models'])        # one SED on another wavelength grid (per-file packages only)
     w['ext_n'] = 40
     nf = len(w['filters'])
     av_hi = round(rng.uniform(5, 30), 2)
-    sc = {'world': w, 'av_range': [0.0 if rng.random() < 0.7 else round(rng.uniform(0, 2), 2), av_hi],
+    sc = {'world': w, 'av_range': [rng.choice([0.0, 0.0, 0.0, round(rng.uniform(0, 2), 2), -round(rng.uniform(0.5, 5), 2)]), av_hi],
           'listing_seed': rng.randrange(1 << 30), 'theta_seed': rng.randrange(1 << 30), 'clock': pipe.gen_clock(rng),
           'conv_memmap': rng.random() < 0.5, 'stream': rng.choice(['path', 'reader']),
           'conv_crash': ({'at': rng.randrange(nf), 'partial': rng.random() < 0.5} if rng.random() < 0.2 else None),
@@ -102,9 +104,12 @@ def _execute(sc, sim, out):
     kj = ref_k(W.ext_wav, W.ext_chi, [f['center'] for f in W.fspec])
     # reference convolved fluxes (n_models, nf, n_ap)
     conv = np.array([[ref_convolve(W.sed[i][0], W.sed[i][1], f['nu'], f['r']) for f in W.fspec] for i in range(W.n_models)])
-    if np.any(conv <= 0):
+    zero_models = set(int(i) for i in np.where(np.any(conv <= 0, axis=(1, 2)))[0])     # models with an exactly zero band
+    if len(zero_models) >= W.n_models:
         out.discarded = 'non-positive-reference-flux'
         return
+    if zero_models:
+        out.probe('other_model_with_zero_band')
     for f, fs in zip(spec['filters'], W.fspec):
         if f.get('desc'):
             out.probe('filter_desc_order')
@@ -127,6 +132,8 @@ def _execute(sc, sim, out):
     truth_info = []
     for pi, p in enumerate(sc['plants']):
         m = p['m'] % W.n_models
+        while m in zero_models:
+            m = (m + 1) % W.n_models            # the planted model has strictly positive fluxes
         av0 = {'lo': av_lo, 'hi': av_hi}.get(p['av_pick'], av_lo + p['av_u'] * (av_hi - av_lo))
         if apdep:
             gi = {'first': 0, 'last': len(grid) - 1}.get(p['d_pick'], int(p['d_u'] * len(grid)) % len(grid))
@@ -179,6 +186,8 @@ def _execute(sc, sim, out):
                 continue
             others = []
             for i in range(W.n_models):
+                if i in zero_models:
+                    continue
                 for gd in grid:
                     if i == m and gd == d0:
                         continue
@@ -194,7 +203,7 @@ def _execute(sc, sim, out):
             if len(fj) < 3 or np.linalg.cond(N) > 1e10 or (np.max(kf) - np.min(kf)) < 1e-4:
                 out.probe('singular_discarded')
                 continue
-            others = [lsq_two(kf, w, y - np.log10(conv[i, fj, 0]), av_lo, av_hi)[0] for i in range(W.n_models) if i != m]
+            others = [lsq_two(kf, w, y - np.log10(conv[i, fj, 0]), av_lo, av_hi)[0] for i in range(W.n_models) if i != m and i not in zero_models]
             P = np.linalg.inv(N) @ (A.T * w[None, :])
             sens_av = np.sum(np.abs(P[0]))
             sens_sc = np.sum(np.abs(P[1]))
@@ -302,7 +311,7 @@ def _execute(sc, sim, out):
         if not (chi[0] <= chi_bound):
             out.violate('planted-chi2', '%s: chi2 of the planted model is %.6g (bound %.3g)' % (what, chi[0], chi_bound))
             break
-        if len(chi) > 1 and not (chi[1] > 0.5):
+        if len(chi) > 1 and np.isfinite(chi[1]) and not (chi[1] > 0.5):      # (a model with an exactly zero band has no finite chi^2)
             out.violate('runner-up', '%s: second-best chi2 is %.6g although the reference puts every other model above 1' % (what, chi[1]))
             break
         out.dev('planted-av', abs(av[0] - t['av0']) / tol_av)
